@@ -276,3 +276,67 @@ pub fn drive_cold(out: &mut dyn std::io::Write, threads: usize, round: u64) {
         }
     }
 }
+
+/// steady-state concurrency: `threads` threads, released by a barrier, repeat the same per-thread operations `iters` times
+/// (hashes with one- and many-block outputs, stream ciphers, Threefish in both directions). A thread's inputs never change, so
+/// every repetition must produce the same record; the first record and every record that DIFFERS from it are emitted, and each
+/// distinct (input, output) is validated against the function specifications. Shared mutable scratch anywhere in the library
+/// (a static buffer, a cached key schedule) shows up as a differing - and then rejected - record.
+const HOT_ALGS: [(&str, usize); 17] = [
+    ("Skein256", 64), ("Skein512", 128), ("Skein1024", 256), ("Skein256", 96), ("Skein512", 65), ("Skein1024", 129), ("Skein256", 32),
+    ("Blake256", 0), ("Blake512", 0), ("Jh256", 0), ("Groestl256", 0), ("Groestl512", 0),
+    ("ks:ChaCha20", 0), ("ks:Ietf", 0), ("tf:32", 0), ("tf:64", 0), ("tf:128", 0),
+];
+
+pub fn drive_hot(out: &mut dyn std::io::Write, threads: usize, iters: usize, round: u64) {
+    let barrier = Arc::new(Barrier::new(threads));
+    let mut handles = vec![];
+    for t in 0..threads {
+        let b = barrier.clone();
+        handles.push(std::thread::spawn(move || {
+            let mut buf: Vec<u8> = vec![];
+            let mut first: Vec<Option<Vec<u8>>> = vec![None; HOT_ALGS.len()];
+            b.wait();
+            for _it in 0..iters {
+                for s in 0..HOT_ALGS.len() {
+                    let ai = (s + t + round as usize) % HOT_ALGS.len();
+                    let (alg, n) = HOT_ALGS[ai];
+                    let mut rec: Vec<u8> = vec![];
+                    if let Some(v) = alg.strip_prefix("ks:") {
+                        let key: Vec<u8> = (0..32).map(|i| (i * 3 + t) as u8).collect();
+                        let nonce: Vec<u8> = (0..chacha::nonce_len(v)).map(|i| (i + 2 * t) as u8).collect();
+                        let data: Vec<u8> = (0..300 + t % 3).map(|i| (i ^ t) as u8).collect();
+                        chacha::ks_event(&mut rec, v, &key, &nonce, (t as u64 % 4) * 32, &data, "hot");
+                    } else if let Some(sz) = alg.strip_prefix("tf:") {
+                        let size: usize = sz.parse().unwrap();
+                        let key: Vec<u8> = (0..size).map(|i| (i * 11 + t + 1) as u8).collect();
+                        let x: Vec<u8> = (0..size).map(|i| (i * 5 + 3 * t) as u8).collect();
+                        crate::tf::ev(&mut rec, size, &key, 0x0101_0101 * (t as u64 + 1), 77 + t as u64, false, &x, "hot", "hot");
+                    } else {
+                        let len = 1 + (t * 7 + ai) % 150;
+                        let msg: Vec<u8> = (0..len).map(|i| (i * 5 + t) as u8).collect();
+                        hashes::digest_event(&mut rec, alg, n, &msg, "hot", "hot");
+                    }
+                    match &first[ai] {
+                        None => {
+                            buf.extend_from_slice(&rec);
+                            first[ai] = Some(rec);
+                        }
+                        Some(f) => {
+                            if *f != rec {
+                                buf.extend_from_slice(&rec);
+                            }
+                        }
+                    }
+                }
+            }
+            buf
+        }));
+    }
+    for h in handles {
+        match h.join() {
+            Ok(buf) => out.write_all(&buf).unwrap(),
+            Err(_) => Ev::new(0, "threadpanic").s("res", "panic").emit(out),
+        }
+    }
+}
